@@ -1,6 +1,8 @@
 // C16 -- ParallelSTL algorithms equal their std:: counterparts.
 // In-process rapidcheck with the real thread pool.  DESIGN.md 4/C16.
 #include "verif_e1.h"
+#include <set>
+#include <string>
 
 #include "galois/Galois.h"
 #include "galois/ParallelSTL.h"
@@ -233,6 +235,42 @@ void run(const Case& c) {
     double gd = P::accumulate(dv.begin(), dv.end(), 0.0, std::plus<double>());
     double wd = std::accumulate(dv.begin(), dv.end(), 0.0);
     VCHECK(gd == wd, "accumulate", "accumulate(double) = %.17g, std = %.17g", gd, wd);
+    // class types with a real move constructor and an identity that is not their empty state:
+    // smallest string (identity: a string above every element), set intersection (identity: the universe)
+    if (n <= 3000) {
+      std::vector<std::string> sv(n);
+      for (size_t i = 0; i < n; ++i)
+        sv[i] = "k" + std::to_string(v[i] % 1000 + 1000) + std::string((size_t)(v[i] & 3), 'x');
+      std::string top(40, '\x7f');
+      auto smin      = [](const std::string& a, const std::string& b) { return a < b ? a : b; };
+      std::string gs = P::accumulate(sv.begin(), sv.end(), top, smin);
+      std::string ws = std::accumulate(sv.begin(), sv.end(), top, smin);
+      VCHECK(gs == ws, "accumulate", "accumulate(smallest string) = '%s', std = '%s' (n=%zu, %u threads)", gs.c_str(), ws.c_str(), n, t);
+      std::set<int> universe;
+      for (int i = 0; i < 12; ++i)
+        universe.insert(i);
+      auto isect = [](const std::set<int>& a, const std::set<int>& b) {
+        std::set<int> r;
+        for (int x : a)
+          if (b.count(x))
+            r.insert(x);
+        return r;
+      };
+      std::set<int> gi = P::map_reduce(
+          v.begin(), v.end(),
+          [](int x) {
+            std::set<int> r;
+            for (int i = 0; i < 12; ++i)
+              if (i != (x & 7) % 12)
+                r.insert(i);
+            return r;
+          },
+          isect, universe);
+      std::set<int> wi = universe;
+      for (int x : v)
+        wi.erase((x & 7) % 12);
+      VCHECK(gi == wi, "map_reduce", "map_reduce(set intersection) has %zu elements, sequentially %zu (n=%zu, %u threads)", gi.size(), wi.size(), n, t);
+    }
     vok();
   }
   if (fn == 5) {
@@ -250,6 +288,12 @@ void run(const Case& c) {
     VCHECK(e == got.begin() + n, "partial_sum", "partial_sum returned end offset %zd for %zu elements", e - got.begin(), n);
     for (size_t i = 0; i < n; ++i)
       VCHECK(got[i] == want[i], "partial_sum", "partial_sum[%zu] = %ld, std = %ld (n=%zu, %u threads)", i, got[i], want[i], n, t);
+    // in place (d_first == first), as std::partial_sum allows
+    std::vector<long> inplace(lv);
+    auto e2 = P::partial_sum(inplace.begin(), inplace.end(), inplace.begin());
+    VCHECK(e2 == inplace.begin() + n, "partial_sum", "in-place partial_sum returned end offset %zd for %zu elements", e2 - inplace.begin(), n);
+    for (size_t i = 0; i < n; ++i)
+      VCHECK(inplace[i] == want[i], "partial_sum", "in-place partial_sum[%zu] = %ld, std = %ld (n=%zu, %u threads)", i, inplace[i], want[i], n, t);
     vok();
   }
   if (fn == 7) {
